@@ -3,8 +3,8 @@
 # 1. demo passes on pristine HEAD, 2. patch applies, suite passes, demo fails, 3. run our checks on it.
 set -u
 pid="$1"; k="$2"; shift 2
-src=/tmp/wt-$pid/out
-dst=/verif/seeded/$pid-m$k
+src=${WT:-/tmp/wt-$pid}/out
+dst=/verif/seeded/$pid-${TAG:-}m$k
 wt=/tmp/iw-$pid-$k-$$
 [ -f "$src/mutant$k.diff" ] || { echo "no $src/mutant$k.diff"; exit 9; }
 git -C /repo worktree add --detach "$wt" HEAD -q || exit 9
@@ -24,7 +24,7 @@ echo "$res" | cut -c1-300
 python3 - "$dst" "$pid" "$k" "$ok" "$rc_clean" "$rc_mut" "$rc_suite" "$suite_line" "$res" <<'PY'
 import json, sys, os
 dst, pid, k, ok, rc_clean, rc_mut, rc_suite, suite_line, res = sys.argv[1:10]
-meta = {"id": f"{pid}-m{k}", "breaks": pid, "origin": "independent sub-agent (given only the property text and a scratch worktree)",
+meta = {"id": os.path.basename(dst), "breaks": pid, "origin": "independent sub-agent (given only the property text and a scratch worktree)",
         "confirmed": bool(int(ok)),
         "what_i_ran": {"demo_on_pristine_rc": int(rc_clean), "demo_with_patch_rc": int(rc_mut), "test_suite_with_patch_rc": int(rc_suite),
                        "test_suite_summary": suite_line,
